@@ -35,8 +35,8 @@ CLAIMS["C11"] = dict(
     ref="DESIGN.md §5 C11",
 )
 CLAIMS["C18"] = dict(
-    text="read_from of VecZnx / ScalarZnx / MatZnx on streams whose every byte is symbolic (all header words incl. products overflowing usize), at every enumerated truncation point: no panic/overflow/out-of-bounds, Err leaves the metadata unchanged, Ok leaves dimensions consistent with the buffer (size <= max_size, n*cols*max_size*8 within the buffer) and accessors in bounds; write->read round trips into equal, larger and re-used receivers reproduce content and dimensions.",
-    note="Small concrete receivers; stream length enumerated (field boundaries +-1). std::fmt::format stubbed (error messages), io::Result forgotten. poulpy-core / poulpy-bin-fhe wrapper readers are not yet encoded (outside this revision's claim).",
+    text="read_from of VecZnx / ScalarZnx / MatZnx on streams whose every byte is symbolic (all header words incl. products overflowing usize), at every enumerated truncation point: no panic/overflow/out-of-bounds, Err leaves the metadata unchanged, Ok leaves dimensions consistent with the buffer (size <= max_size, n*cols*max_size*8 within the buffer) and accessors in bounds; write->read round trips into equal, larger and re-used receivers reproduce content and dimensions. The poulpy-core wrappers GLWE, LWE and GLWECompressed are decided on fully symbolic streams too: Err leaves every metadata field (base2k, rank, seed, dimensions) unchanged, Ok leaves dimensions consistent with the buffer.",
+    note="Small concrete receivers; stream length enumerated (field boundaries +-1). std::fmt::format stubbed (error messages), io::Result forgotten. The other poulpy-core wrappers (GGLWE/GGSW/keys, compressed matrices) and the poulpy-bin-fhe key readers are not encoded.",
     technique=KANI + "; stream bytes fully symbolic",
     ref="DESIGN.md §5 C18",
 )
